@@ -1337,3 +1337,167 @@ func quotaOverAllShards(w *load.World, c *core.Collector) {
 		c.Add("QUOTA", "sum-over-all-shards", core.OK, w.Position(f.Pos()), "", props...)
 	}
 }
+
+// errorValue: the error a call returns (the call itself, or the extract of its last result).
+func errorValueOf(call *ssa.Call) ssa.Value {
+	res := call.Call.Signature().Results()
+	if res.Len() == 0 {
+		return nil
+	}
+	errT := types.Universe.Lookup("error").Type()
+	if !types.Identical(res.At(res.Len()-1).Type(), errT) {
+		return nil
+	}
+	if res.Len() == 1 {
+		return call
+	}
+	for _, r := range *call.Referrers() {
+		if ex, ok := r.(*ssa.Extract); ok && ex.Index == res.Len()-1 {
+			return ex
+		}
+	}
+	return nil
+}
+
+// ErrLoop: an error that is assigned inside a loop and looked at only after it. Every iteration
+// overwrites the previous one's error; only the last call's failure is ever seen (deleting a
+// point's three keys in a loop reports a fault on the third only).
+// ErrSkip: a function returns success between a failing call and the test of its error: the
+// early return was added above the check ("nothing else to persist") and swallows the failure.
+func ErrLoop(w *load.World, c *core.Collector) {
+	perLoop := map[string][]lintHit{}
+	perSkip := map[string][]lintHit{}
+	seen := map[string]bool{}
+	for _, f := range w.Fns {
+		if !load.InMod(f) || f.Synthetic != "" || len(f.Blocks) == 0 {
+			continue
+		}
+		pkg := load.PkgPath(f)
+		seen[pkg] = true
+		for _, b := range f.Blocks {
+			for _, in := range b.Instrs {
+				call, ok := in.(*ssa.Call)
+				if !ok {
+					continue
+				}
+				e := errorValueOf(call)
+				if e == nil {
+					continue
+				}
+				refs := e.Referrers()
+				if refs == nil {
+					continue
+				}
+				// --- overwritten in a loop
+				var hdrPhi *ssa.Phi
+				onlyPhis := len(*refs) > 0
+				for _, r := range *refs {
+					switch x := r.(type) {
+					case *ssa.Phi:
+						if x.Block().Dominates(b) && x.Block() != b && ssax.Reaches(b, x.Block()) {
+							hdrPhi = x
+						}
+					case *ssa.DebugRef:
+					default:
+						onlyPhis = false
+					}
+				}
+				if onlyPhis && hdrPhi != nil {
+					// the merged value is not looked at inside the loop either
+					testedInLoop := false
+					for _, r := range *hdrPhi.Referrers() {
+						ri, ok := r.(ssa.Instruction)
+						if !ok {
+							continue
+						}
+						if _, isPhi := r.(*ssa.Phi); isPhi {
+							continue
+						}
+						rb := ri.Block()
+						if rb != nil && hdrPhi.Block().Dominates(rb) && ssax.Reaches(rb, hdrPhi.Block()) {
+							testedInLoop = true
+						}
+					}
+					if !testedInLoop {
+						perLoop[pkg] = append(perLoop[pkg], lintHit{w.At(in), "the error of this call is assigned inside a loop and not looked at before the next iteration overwrites it: only the last iteration's failure is seen after the loop"})
+					}
+				}
+				// --- success returned between the call and the test of its error
+				nn, isNil := ssax.NilTests(f, e)
+				if len(nn)+len(isNil) == 0 {
+					continue
+				}
+				tests := map[*ssa.BasicBlock]bool{}
+				for _, ed := range nn {
+					tests[ed.From] = true
+				}
+				for _, ed := range isNil {
+					tests[ed.From] = true
+				}
+				// blocks whose branch depends on the error in some other way
+				for _, tb := range f.Blocks {
+					if ifi, ok := tb.Instrs[len(tb.Instrs)-1].(*ssa.If); ok {
+						var deps func(v ssa.Value, d int) bool
+						deps = func(v ssa.Value, d int) bool {
+							if v == e {
+								return true
+							}
+							if d > 4 {
+								return false
+							}
+							if ins, ok := v.(ssa.Instruction); ok {
+								for _, op := range ins.Operands(nil) {
+									if *op != nil && deps(*op, d+1) {
+										return true
+									}
+								}
+							}
+							return false
+						}
+						if deps(ifi.Cond, 0) {
+							tests[tb] = true
+						}
+					}
+				}
+				if tests[b] {
+					continue // tested at once
+				}
+				reach := map[*ssa.BasicBlock]bool{b: true}
+				stack := []*ssa.BasicBlock{b}
+				for len(stack) > 0 {
+					x := stack[len(stack)-1]
+					stack = stack[:len(stack)-1]
+					for _, s := range x.Succs {
+						if !reach[s] && !tests[s] {
+							reach[s] = true
+							stack = append(stack, s)
+						}
+					}
+				}
+				for rb := range reach {
+					r, ok := rb.Instrs[len(rb.Instrs)-1].(*ssa.Return)
+					if !ok || len(r.Results) == 0 {
+						continue
+					}
+					if rb == b && !ssax.Precedes(in, r) {
+						continue
+					}
+					last := ssax.ReturnOperand(r, len(r.Results)-1)
+					k, isK := last.(*ssa.Const)
+					if !isK || !k.IsNil() || !types.Identical(last.Type(), types.Universe.Lookup("error").Type()) {
+						continue
+					}
+					perSkip[pkg] = append(perSkip[pkg], lintHit{w.At(r), "success is returned here although the error of the call at " + w.At(in) + " has not been looked at yet (its test comes later): a failure of that call is swallowed on this way"})
+				}
+			}
+		}
+	}
+	extra := func(p string) []string {
+		if strings.Contains(p, "/shard") || strings.HasSuffix(p, "/diskstore") {
+			return []string{"C07"}
+		}
+		return nil
+	}
+	emitLint(c, "ERRLOOP", "error-overwritten-in-loop", seen, perLoop, extra)
+	emitLint(c, "ERRLOOP", "success-before-error-test", seen, perSkip, extra)
+}
